@@ -17,7 +17,19 @@ What is DROPPED (each occurrence is recorded with its line number in ``Lowered.d
   * the ``f`` prefix of f-strings (exception message texts are not modelled; the pinned source
     even contains an f-string that CPython cannot parse);
   * comments.
-Nothing else is rewritten.  Anything outside the subset raises ``LoweringError`` (checker error).
+Nothing else is rewritten.  Anything outside the subset raises ``LoweringError``.
+
+Containment of lowering failures (so that one unsupported construct does not take the whole run down):
+  * a construct outside the subset in the BODY of a function (forbidden keyword / operator, a line
+    that cannot be lowered, a body that is not valid Python after lowering, an ast node outside the
+    subset) fails that function only: the function keeps its header (``FuncInfo`` with parameter
+    types), its body is replaced by ``pass``, the message is recorded in ``Lowered.failed[name]``
+    and every function that (transitively) references it is listed in ``Lowered.tainted`` (those
+    must not be *interpreted*; their VCs use the callee's contract and are unaffected);
+  * anything else (tokenizer, module level, function headers, ctypedefs) fails the FILE:
+    ``lower_file`` raises, ``lower_all_contained`` returns the message per file.
+The drivers (kern_run, kern_diff) report every ledger obligation of a failed function / file as
+UNDECIDED ("source outside the supported subset: ..."), never as held.
 
 C types are kept as sort information (``CType``): double -> Real (NaN flag added by kernvc where
 ``isnan`` is applied), int / np.int64_t / uint8 -> Int, bint -> Bool, str -> enumerated string code,
@@ -33,7 +45,11 @@ from . import core
 
 
 class LoweringError(Exception):
-    """Construct outside the supported subset: the run is a checker error, never a verdict."""
+    """Construct outside the supported subset (never a verdict 'held' for the code it concerns)."""
+
+
+def short_of(relpath):
+    return relpath.replace("src/gstools/", "")
 
 
 KERNEL_FILES = (
@@ -171,6 +187,7 @@ class FuncInfo:
         self.nogil = False
         self.markers = []           # [(line, 'prange'|'parallel', dropped kwargs text)]
         self.node = None            # ast.FunctionDef
+        self.failed = None          # message: body outside the supported subset (body is `pass`)
 
     def ctype(self, name):
         for n, t, _ in self.params:
@@ -190,7 +207,7 @@ class Lowered:
     def __init__(self, relpath):
         self.relpath = relpath
         self.path = os.path.join(core.REPO, relpath)
-        self.short = relpath.replace("src/gstools/", "")
+        self.short = short_of(relpath)
         self.source = ""
         self.lines = []
         self.text = ""              # lowered python text (same line numbering as the .pyx)
@@ -201,6 +218,8 @@ class Lowered:
         self.intrinsics = set()     # names cimported from libc.math
         self.directives = {}
         self.sha = ""
+        self.failed = {}            # function name -> message (body could not be lowered)
+        self.tainted = set()        # failed functions and everything that transitively refers to them
 
     def drop(self, line, kind, text):
         self.dropped.append({"line": line, "kind": kind, "text": text})
@@ -352,15 +371,14 @@ class _Lowerer:
                     k, v = item.split("=", 1)
                     low.directives[k.strip()] = v.strip()
         toks = tokenize(src, low.path)
+        bad_tokens = []     # (line, message): decided per logical line below (function body -> that function)
         for t in toks:
             if t.kind == "name" and t.text in FORBIDDEN_WORDS:
-                raise LoweringError("%s:%d: keyword %r is outside the supported subset"
-                                    % (low.short, t.line, t.text))
+                bad_tokens.append((t.line, "%s:%d: keyword %r is outside the supported subset"
+                                   % (low.short, t.line, t.text)))
             if t.kind == "op" and t.text in FORBIDDEN_OPS:
-                raise LoweringError("%s:%d: operator %r is outside the supported subset"
-                                    % (low.short, t.line, t.text))
-            if t.kind == "comment" and t.line > 1:
-                pass
+                bad_tokens.append((t.line, "%s:%d: operator %r is outside the supported subset"
+                                   % (low.short, t.line, t.text)))
         ncom = [t.line for t in toks if t.kind == "comment"]
         if ncom:
             low.drop(ncom[0], "comments", "%d comment tokens dropped (lines %s)"
@@ -368,12 +386,22 @@ class _Lowerer:
         lls = logical_lines(toks)
         out = []            # [(LLine, new token list | None)]
         cur_fn = None       # (FuncInfo, indent)
+        self.header_idx = {}
         for ll in lls:
             if cur_fn is not None and ll.indent <= cur_fn[1]:
                 cur_fn = None
             if cur_fn is not None:
                 cur_fn[0].endline = ll.endline
-            new = self.lower_line(ll, cur_fn[0] if cur_fn else None)
+            bad = [m_ for ln, m_ in bad_tokens if ll.line <= ln <= ll.endline]
+            try:
+                if bad:
+                    raise LoweringError(bad[0])
+                new = self.lower_line(ll, cur_fn[0] if cur_fn else None)
+            except LoweringError as e:
+                if cur_fn is None:
+                    raise           # module level or function header: the file cannot be lowered
+                self.fail(cur_fn[0], e)
+                new = None
             if isinstance(new, tuple):      # function header
                 fi, newtoks = new
                 if cur_fn is not None:
@@ -381,29 +409,70 @@ class _Lowerer:
                                         % (low.short, ll.line))
                 cur_fn = (fi, ll.indent)
                 low.funcs[fi.name] = fi
+                self.header_idx[fi.name] = len(out)
                 new = newtoks
             out.append((ll, new))
+        for fn in list(low.failed):
+            self.stub_body(out, low.funcs[fn])
         out = self.fix_empty_blocks(out)
         # render with identical line numbering
         nlines = len(low.lines)
-        rendered = [""] * (nlines + 2)
-        for ll, new in out:
-            if new is None:
-                continue
-            rendered[ll.line - 1] = " " * ll.indent + " ".join(self.render_tok(t) for t in new)
-        low.text = "\n".join(rendered) + "\n"
-        try:
-            low.tree = ast.parse(low.text, filename=low.short)
-        except SyntaxError as e:
-            raise LoweringError("%s:%s: lowered text is not valid Python (%s): %r"
-                                % (low.short, e.lineno, e.msg, (e.text or "").strip()))
+        ndrop = len(low.dropped)
+        while True:
+            del low.dropped[ndrop:]         # render_tok records drops: once per final rendering
+            rendered = [""] * (nlines + 2)
+            for ll, new in out:
+                if new is None:
+                    continue
+                rendered[ll.line - 1] = " " * ll.indent + " ".join(self.render_tok(t) for t in new)
+            low.text = "\n".join(rendered) + "\n"
+            try:
+                low.tree = ast.parse(low.text, filename=low.short)
+                break
+            except SyntaxError as e:
+                err = LoweringError("%s:%s: lowered text is not valid Python (%s): %r"
+                                    % (low.short, e.lineno, e.msg, (e.text or "").strip()))
+                # owner: the closest function that starts before the reported line (CPython may report
+                # a line shortly after the offending one); not its header, not a function already stubbed
+                before = [f for f in low.funcs.values() if e.lineno is not None and f.line < e.lineno]
+                owner = max(before, key=lambda f: f.line) if before else None
+                if owner is None or owner.failed is not None \
+                        or e.lineno <= out[self.header_idx[owner.name]][0].endline:
+                    raise err
+                self.fail(owner, err)
+                self.stub_body(out, owner)
         for node in low.tree.body:
             if isinstance(node, ast.FunctionDef):
                 if node.name not in low.funcs:
                     raise LoweringError("function %s lost in lowering" % node.name)
                 low.funcs[node.name].node = node
-        validate(low)
+        validate(low, on_function_error=self.fail_node)
+        low.tainted = _tainted(low)
         return low
+
+    def fail(self, fi, e):
+        if fi.failed is None:
+            fi.failed = str(e)
+            self.low.failed[fi.name] = fi.failed
+
+    def fail_node(self, node, e):
+        """validate(): an ast node outside the subset inside a function body"""
+        self.fail(self.low.funcs[node.name], e)
+        node.body = [ast.copy_location(ast.Pass(), node.body[0])]
+
+    def stub_body(self, out, fi):
+        """replace the body of a function whose body cannot be lowered by ``pass``"""
+        h = self.header_idx[fi.name]
+        hind = out[h][0].indent
+        first = True
+        for k in range(h + 1, len(out)):
+            ll = out[k][0]
+            if ll.indent <= hind:
+                break
+            out[k] = (ll, [Tok("name", "pass", ll.line, ll.indent)] if first else None)
+            first = False
+        if first:
+            raise LoweringError("%s:%d: function %s has no body" % (self.low.short, fi.line, fi.name))
 
     def render_tok(self, t):
         if t.kind == "str" and t.text[:1] in "fF" or (t.kind == "str" and t.text[:2].lower() in ("rf", "fr")):
@@ -661,7 +730,7 @@ _OK_EXPR = (ast.BinOp, ast.UnaryOp, ast.BoolOp, ast.Compare, ast.Call, ast.Name,
             ast.Eq, ast.NotEq, ast.Lt, ast.LtE, ast.Gt, ast.GtE, ast.Is, ast.IsNot, ast.keyword)
 
 
-def validate(low):
+def validate(low, on_function_error=None):
     def bad(node, what):
         raise LoweringError("%s:%s: %s is outside the supported subset"
                             % (low.short, getattr(node, "lineno", "?"), what))
@@ -730,7 +799,12 @@ def validate(low):
                 bad(node, "function signature form")
             for d in a.defaults:
                 expr(d)
-            stmts(node.body, True, False)
+            try:
+                stmts(node.body, True, False)
+            except LoweringError as e:
+                if on_function_error is None:
+                    raise
+                on_function_error(node, e)
         elif isinstance(node, ast.Import):
             pass
         elif isinstance(node, ast.Expr) and isinstance(node.value, ast.Constant) \
@@ -754,6 +828,35 @@ def lower_file(relpath):
 
 def lower_all():
     return {rp: lower_file(rp) for rp in KERNEL_FILES}
+
+
+def lower_all_contained(relpaths=KERNEL_FILES):
+    """-> ({relpath: Lowered}, {relpath: message}) : a file that cannot be lowered does not stop the others"""
+    lows, failed = {}, {}
+    for rp in relpaths:
+        try:
+            lows[rp] = lower_file(rp)
+        except LoweringError as e:
+            failed[rp] = str(e)
+    return lows, failed
+
+
+def _tainted(low):
+    """failed functions + every function whose body refers (transitively) to one of them"""
+    refs = {}
+    for fn, fi in low.funcs.items():
+        refs[fn] = set()
+        if fi.node is not None and fi.failed is None:
+            refs[fn] = {n.id for n in ast.walk(fi.node) if isinstance(n, ast.Name) and n.id in low.funcs}
+    bad = set(low.failed)
+    changed = bool(bad)
+    while changed:
+        changed = False
+        for fn, r in refs.items():
+            if fn not in bad and r & bad:
+                bad.add(fn)
+                changed = True
+    return bad
 
 
 def generated_c_path(low):
